@@ -1195,6 +1195,141 @@ impl<R> Reader<R> {
     }
 }
 
+/// Verification hooks (off in every normal build): run ONE helper of the
+/// crate-private `XmlSource` trait on a buffered source or on a slice, so that
+/// the helpers can be compared with each other.
+#[cfg(any(kani, quick_xml_verif))]
+#[doc(hidden)]
+pub mod verif_source {
+    use super::{BangType, ReadTextResult, XmlSource};
+    use crate::errors::{Error, SyntaxError};
+    use crate::parser::{ElementParser, PiParser};
+    use std::io;
+
+    /// What a helper returned; payload bytes are reported separately
+    #[derive(Debug, Clone, Copy, PartialEq, Eq)]
+    pub enum Res {
+        /// `read_text`: the `<` was at the start
+        Markup,
+        /// `read_text`: text up to a `<`
+        UpToMarkup,
+        /// `read_text`: text up to the end of input
+        UpToEof,
+        /// `read_with`: bytes up to the `>`
+        Bytes,
+        /// `read_bang_element`: 0 = CData, 1 = Comment, 2 = DocType
+        Bang(u8),
+        /// `skip_whitespace`, `remove_utf8_bom`
+        Done,
+        /// `peek_one`
+        Peek(Option<u8>),
+        Syntax(SyntaxError),
+        Io(io::ErrorKind),
+        OtherErr,
+    }
+
+    fn err(e: Error) -> Res {
+        match e {
+            Error::Syntax(s) => Res::Syntax(s),
+            Error::Io(e) => Res::Io(e.kind()),
+            _ => Res::OtherErr,
+        }
+    }
+
+    fn bang(b: BangType) -> u8 {
+        match b {
+            BangType::CData => 0,
+            BangType::Comment => 1,
+            BangType::DocType(_) => 2,
+        }
+    }
+
+    /// `op`: 0 read_text, 1 read_with(ElementParser), 2 read_with(PiParser), 3 read_bang_element,
+    /// 4 skip_whitespace, 5 peek_one, 6 remove_utf8_bom. Payload = `buf[start..]`.
+    pub fn buffered<R: io::BufRead>(op: u8, reader: &mut R, buf: &mut Vec<u8>, position: &mut u64) -> Res {
+        match op {
+            0 => match reader.read_text(buf, position) {
+                ReadTextResult::Markup(_) => Res::Markup,
+                ReadTextResult::UpToMarkup(_) => Res::UpToMarkup,
+                ReadTextResult::UpToEof(_) => Res::UpToEof,
+                ReadTextResult::Err(e) => Res::Io(e.kind()),
+            },
+            1 => match reader.read_with(ElementParser::Outside, buf, position) {
+                Ok(_) => Res::Bytes,
+                Err(e) => err(e),
+            },
+            2 => match reader.read_with(PiParser(false), buf, position) {
+                Ok(_) => Res::Bytes,
+                Err(e) => err(e),
+            },
+            3 => match reader.read_bang_element(buf, position) {
+                Ok((b, _)) => Res::Bang(bang(b)),
+                Err(e) => err(e),
+            },
+            4 => match XmlSource::<&mut Vec<u8>>::skip_whitespace(reader, position) {
+                Ok(()) => Res::Done,
+                Err(e) => Res::Io(e.kind()),
+            },
+            5 => match XmlSource::<&mut Vec<u8>>::peek_one(reader) {
+                Ok(b) => Res::Peek(b),
+                Err(e) => Res::Io(e.kind()),
+            },
+            _ => {
+                #[cfg(not(feature = "encoding"))]
+                let r = XmlSource::<&mut Vec<u8>>::remove_utf8_bom(reader, position);
+                #[cfg(feature = "encoding")]
+                let r = XmlSource::<&mut Vec<u8>>::detect_encoding(reader, position).map(|_| ());
+                match r {
+                    Ok(()) => Res::Done,
+                    Err(e) => Res::Io(e.kind()),
+                }
+            }
+        }
+    }
+
+    /// The same helper of the slice source; returns the payload
+    pub fn slice<'a>(op: u8, reader: &mut &'a [u8], position: &mut u64) -> (Res, &'a [u8]) {
+        match op {
+            0 => match reader.read_text((), position) {
+                ReadTextResult::Markup(_) => (Res::Markup, &[]),
+                ReadTextResult::UpToMarkup(b) => (Res::UpToMarkup, b),
+                ReadTextResult::UpToEof(b) => (Res::UpToEof, b),
+                ReadTextResult::Err(e) => (Res::Io(e.kind()), &[]),
+            },
+            1 => match reader.read_with(ElementParser::Outside, (), position) {
+                Ok(b) => (Res::Bytes, b),
+                Err(e) => (err(e), &[]),
+            },
+            2 => match reader.read_with(PiParser(false), (), position) {
+                Ok(b) => (Res::Bytes, b),
+                Err(e) => (err(e), &[]),
+            },
+            3 => match reader.read_bang_element((), position) {
+                Ok((b, bytes)) => (Res::Bang(bang(b)), bytes),
+                Err(e) => (err(e), &[]),
+            },
+            4 => match XmlSource::<()>::skip_whitespace(reader, position) {
+                Ok(()) => (Res::Done, &[]),
+                Err(e) => (Res::Io(e.kind()), &[]),
+            },
+            5 => match XmlSource::<()>::peek_one(reader) {
+                Ok(b) => (Res::Peek(b), &[]),
+                Err(e) => (Res::Io(e.kind()), &[]),
+            },
+            _ => {
+                #[cfg(not(feature = "encoding"))]
+                let r = XmlSource::<()>::remove_utf8_bom(reader, position);
+                #[cfg(feature = "encoding")]
+                let r = XmlSource::<()>::detect_encoding(reader, position).map(|_| ());
+                match r {
+                    Ok(()) => (Res::Done, &[]),
+                    Err(e) => (Res::Io(e.kind()), &[]),
+                }
+            }
+        }
+    }
+}
+
 /// Verification hook: runs the private `BangType::parse`.
 /// `kind`: 0 = CData, 1 = Comment, 2 = DocType(`balance`).
 /// Returns `(length of the consumed slice, bytes used from chunk, balance after)`
